@@ -21,6 +21,7 @@ import (
 	"go.flow.arcalot.io/pluginsdk/schema"
 	"verif/engine/lib"
 	"verif/engine/mc"
+	"verif/harness/ukit"
 )
 
 type greetIn struct {
@@ -135,6 +136,10 @@ type session struct {
 	V1          bool
 	Groups      [][]call
 	MaxDelay    int
+	// Gen: a generated plugin - one step "echo" whose input and output are (separate instances of) this scope and whose
+	// handler returns its input; Groups holds one serial Execute per chosen input
+	Gen  *ukit.Spec
+	want map[string]expected
 }
 
 var (
@@ -192,6 +197,100 @@ func sessions(tier string) []session {
 }
 
 var sess map[string]*session
+
+// genSpecs: every schema of the universe that can be a step's input and output (it has to describe itself in the
+// hello message: no typed enums - the ledgered C09 finding -, no struct-literal enums, no dangling foreign references).
+func genSpecs(tier string) []*ukit.Spec {
+	var all []*ukit.Spec
+	if tier == "thorough" {
+		all = ukit.Universe(2, false)
+	} else {
+		all = append(ukit.LeafSpecs(), ukit.Depth1()...)
+	}
+	var out []*ukit.Spec
+	for _, sp := range all {
+		ok := true
+		sp.Walk(func(n *ukit.Spec) {
+			if n.Kind == ukit.KTypedEnum || n.Literal || (n.Kind == ukit.KRef && n.RefNS != "") {
+				ok = false
+			}
+		})
+		if !ok {
+			continue
+		}
+		w := ukit.WrapScope(sp)
+		if pan, _, _ := ukit.Call(func() { ukit.BuildScope(w) }); pan {
+			continue
+		}
+		out = append(out, w)
+	}
+	return out
+}
+
+func genPlugin(w *ukit.Spec) *schema.CallableSchema {
+	echo := schema.NewCallableStep[any]("echo", ukit.BuildScope(w),
+		map[string]*schema.StepOutputSchema{"success": schema.NewStepOutputSchema(ukit.BuildScope(w), nil, false)}, nil,
+		func(_ context.Context, in any) (string, any) { return "success", in })
+	return schema.NewCallableSchema(echo)
+}
+
+// genSession: up to three accepted inputs and one the input schema rejects, executed one after the other.
+func genSession(i int, w *ukit.Spec) session {
+	se := session{Name: fmt.Sprintf("gen/%04d %s", i, clipName(w.String())), Gen: w, MaxDelay: 0}
+	probe := ukit.BuildScope(w)
+	n := 0
+	add := func(v any) {
+		n++
+		se.Groups = append(se.Groups, []call{{RunID: fmt.Sprintf("g%d", n), Step: "echo", Input: v}})
+	}
+	for _, v := range ukit.ValidValues(w, 3) {
+		if _, err := cbor.Marshal(v); err == nil {
+			add(v)
+		}
+	}
+	for _, r := range ukit.RawValues(w) {
+		rejected := false
+		if pan, _, _ := ukit.Call(func() {
+			_, err := probe.Unserialize(ukit.DeepCopy(normalise(r)))
+			rejected = err != nil
+		}); pan || !rejected {
+			continue
+		}
+		if _, isMap := r.(map[string]any); isMap {
+			add(r)
+			break
+		}
+	}
+	return se
+}
+
+func clipName(n string) string {
+	if len(n) > 60 {
+		return n[:60] + "..."
+	}
+	return n
+}
+
+func (se *session) expected() map[string]expected {
+	if se.Gen == nil {
+		return want
+	}
+	if se.want == nil {
+		se.want = map[string]expected{}
+		p := genPlugin(se.Gen)
+		for _, g := range se.Groups {
+			for _, c := range g {
+				id, data, err := p.CallStep(context.Background(), "expect-"+c.RunID, c.Step, normalise(c.Input))
+				if err != nil {
+					se.want[c.RunID] = expected{Err: true}
+					continue
+				}
+				se.want[c.RunID] = expected{OutputID: id, Data: normalise(data)}
+			}
+		}
+	}
+	return se.want
+}
 
 type expected struct {
 	OutputID string
@@ -300,6 +399,9 @@ func body(se *session) func() {
 			c2s, s2c = mcrt.NewPipe("c2s"), mcrt.NewPipe("s2c")
 		}
 		plugin := newPlugin()
+		if se.Gen != nil {
+			plugin = genPlugin(se.Gen)
+		}
 		if se.V1 {
 			n := 0
 			for _, g := range se.Groups {
@@ -410,7 +512,7 @@ func judge(se *session, r *mcrt.Result) (string, []mc.Finding) {
 				add("Execute did not return exactly once", fmt.Sprintf("run %s: %d returns", c.RunID, len(rs)))
 				continue
 			}
-			res, w := rs[0], want[c.RunID]
+			res, w := rs[0], se.expected()[c.RunID]
 			switch {
 			case w.Err && res.Error == nil:
 				add("input the step rejects in-process was not reported as that Execute's error", fmt.Sprintf("run %s -> %q %v", c.RunID, res.OutputID, res.OutputData))
@@ -453,6 +555,16 @@ func main() {
 				}
 				out = append(out, mc.Scenario{Name: s.Name, Levels: levels})
 			}
+			// generated plugins: every schema of the universe as the input and output of an echo step, its inputs executed
+			// through the real client and server under the default schedule
+			for i, w := range genSpecs(tier) {
+				gs := genSession(i, w)
+				if len(gs.Groups) == 0 {
+					continue
+				}
+				sess[gs.Name] = &gs
+				out = append(out, mc.Scenario{Name: gs.Name, Levels: []mc.Bounds{{Preempt: 0, Delay: 0, Deviate: 0}}})
+			}
 			return out
 		},
 		Body:  func(sc mc.Scenario) func() { return body(sess[sc.Name]) },
@@ -465,7 +577,7 @@ func main() {
 		},
 		Assumptions: []string{
 			"expected results are computed by calling CallableSchema.CallStep in-process on a fresh plugin instance with the CBOR-normalised input",
-			"payload fidelity over all data shapes is C01's CBOR leg; C05 keeps payloads few and schedules many",
+			"the fixed sessions keep payloads few and schedules many; the generated-plugin sessions (gen/...) keep the schedule fixed (default) and range over every schema of the universe (quick: leaves and depth 1; thorough: U_2) as the input and output of an echo step, with up to three accepted inputs and one rejected input each",
 			"v1 sessions use a scripted v1 peer that answers with the real CallStep (the SDK has no v1 server)",
 			"fragmentation menu per read: everything available, 1 byte, up to the first message boundary, boundary+-1",
 			"scheduling points at synchronisation/channel/transport operations; timers virtual",
